@@ -141,6 +141,9 @@ def run(idx: ProgramIndex, rep: Report, tier: str):
     loo(idx, rep)
     summll(idx, rep)
     aliasing(idx, rep)
+    rep.rule("C02-5", "the enumerators feeding the objective are total: every registered prior / added-loss term is yielded, with (module, prior, closure) of the same registration at the positions the objective unpacks")
+    from .common_enum import enumeration_obligations
+    enumeration_obligations(idx, rep, "C02-5", [idx.find_class("ExactMarginalLogLikelihood").lookup("_add_other_terms")], floor=9)
 
 
 def _other_terms(idx: ProgramIndex, cls: ClassInfo) -> Tuple[FuncInfo, List[str], Affine]:
